@@ -127,6 +127,7 @@ func cmdVerify(args []string) {
 	secs := fs.Int("secs", 10, "solver timeout per obligation")
 	keep := fs.Bool("keep", false, "keep query files")
 	dump := fs.String("dump", "", "print the query text of obligations whose name contains this")
+	sweep := fs.Bool("sweep", false, "functions without a contract get the synthetic sweep contract (panics only)")
 	fs.Parse(args)
 	P, err := loadProgram(repoDir(), strings.Split(*pkg, ","))
 	if err != nil {
@@ -154,6 +155,9 @@ func cmdVerify(args []string) {
 			continue
 		}
 		sp := ss.specFor(f)
+		if sp == nil && *sweep {
+			sp = sweepSpec(f)
+		}
 		if sp == nil {
 			sp = &FuncSpec{Loops: map[int]*LoopSpec{}, NoSafety: map[string]bool{}, CallSpecs: map[string]string{}}
 		}
